@@ -1,4 +1,5 @@
 import PermutaModel.Model.C02
+import PermutaModel.Model.C05
 open Proto Model Model.C02
 
 namespace Driver.C02
@@ -48,6 +49,20 @@ def parseBasis (s : String) : BasisV ⊕ List NSeq :=
       | _ => ⟨parseSeq e, []⟩))
   else .inr (elems.map parseSeq)
 
+/-- `Av.from_iterable(patterns)` for a basis given as text: classical patterns go through the model of
+    `Basis(*patts)`, a list with a mesh pattern through the model of `MeshBasis(*patts)` (sort + pruner, C05;
+    a pattern without shading stands for a classical `Perm` of the input) -/
+def newFromBasisString (s : Proc) (name basis : String) : Except Err Proc :=
+  match parseBasis basis with
+  | .inl (.mesh l) =>
+    match Model.C05.meshBasisNew (l.map fun (m : Mesh) =>
+        if m.shading.isEmpty then Model.C08.Atom.perm m.pattern
+        else Model.C08.Atom.mesh ⟨Generated.DCls.MeshPatt, m.pattern, (normMesh m).shading⟩) with
+    | .ok b => s.newMesh name (b.map Model.C05.toMesh)
+    | .error e => .error e
+  | .inl b => s.newClass name b
+  | .inr l => s.newClassical name l
+
 structure St where
   proc : Proc
   yielded : List (String × List NSeq)   -- everything an iterator has produced so far
@@ -69,11 +84,7 @@ partial def step (st : St) (op : String) : St × String :=
   let s := st.proc
   match op.splitOn ":" with
   | ["N", name, basis] =>
-    let r := match parseBasis basis with
-      | .inl (.mesh l) => s.newMesh name l
-      | .inl b => s.newClass name b
-      | .inr l => s.newClassical name l
-    match r with
+    match newFromBasisString s name basis with
     | .ok s' => ({ st with proc := s' }, "ok")
     | .error e => (st, e.show)
   | ["S", name, str] =>
